@@ -255,3 +255,16 @@ CHECKS["C14"] = dict(
     assumptions=C14_ASSUME,
     deadline=dict(quick=200, thorough=1200),
 )
+
+CHECKS["C09"] = dict(
+    quick=[R("h_raw", "bound=3", sched=True)],
+    thorough=[R("h_raw", "bound=6 oposts=2", sched=True)],
+    rule="3 backings (eventfd2 / old eventfd / pipe shrunk to 4096 B) x 4 poll methods x 10 poster programs (1 post, 2 posts, burst of 5000 "
+         "in one step, post from a signal handler running in the owner thread, post from a forked child, and pairs of these) x owner posting "
+         "from a timer and from inside the handler x every schedule within the bound",
+    explanation="obligation oracle at quiescence and exit: a handler start in the registering thread after every post's start; the descriptor "
+                "written by a post must be O_NONBLOCK at every post (so a post can never block) and every post call returns; same verdicts "
+                "demanded under all three backings",
+    assumptions=MT_ASSUME + ["the forked child's post and its reaping are one atomic scheduler step; a burst is one atomic step"],
+    deadline=dict(quick=150, thorough=900),
+)
